@@ -117,6 +117,32 @@ func vh_C03_fold() {
 	}
 }
 
+// bitwise folding on constants in [0, 2^64): and, or, xor, andNot
+func vh_C03_bitwise() {
+	// operands are drawn as 64-bit patterns (bit-vector encoding)
+	ux, uy := vNondetUint64("x"), vNondetUint64("y")
+	n := &node{typ: &itype{cat: intT, untyped: true, rtype: vTypeOfKind(int(reflect.Int))}}
+	n.child = []*node{vhConstNode(constant.MakeUint64(ux)), vhConstNode(constant.MakeUint64(uy))}
+	var want uint64
+	vReach("C03.bitwise")
+	switch vhOp {
+	case 0:
+		andConst(n)
+		want = ux & uy
+	case 1:
+		orConst(n)
+		want = ux | uy
+	case 2:
+		xorConst(n)
+		want = ux ^ uy
+	case 3:
+		andNotConst(n)
+		want = ux &^ uy
+	}
+	got, ok := n.rval.Interface().(constant.Value)
+	vAssert("C03.fold.bitwise", ok && vConstKindIs(got, int(constant.Int)) && vBigEq(vBigOfConst(got), vBigUint64(want)))
+}
+
 // shifts: x << s, x >> s with an untyped constant x and a count 0..64
 func vh_C03_shift() {
 	x := vBigNondet("x")
@@ -181,7 +207,7 @@ func vh_C03_materialise() {
 
 var vhRegistry = map[string]func(){
 	"vh_C03_repr_int": vh_C03_repr_int, "vh_C03_repr_other": vh_C03_repr_other, "vh_C03_fold": vh_C03_fold,
-	"vh_C03_shift": vh_C03_shift, "vh_C03_materialise": vh_C03_materialise, "vv_models": vv_models,
+	"vh_C03_shift": vh_C03_shift, "vh_C03_bitwise": vh_C03_bitwise, "vh_C03_materialise": vh_C03_materialise, "vv_models": vv_models,
 }
 
 var vhIntVars = map[string]*int{"vhKind": &vhKind, "vhOp": &vhOp}
